@@ -428,7 +428,9 @@ func runSession(c J) J {
 			}
 			return result{Outcome: "error", Stage: "harness", Msg: "unknown entry " + entry}
 		})
-		res = noAddress(srcs[t], res)
+		if !jbool(c, "noref") || jbool(c, "addrcheck") {
+			res = noAddress(srcs[t], res)
+		}
 		res.put(ev)
 		if snap {
 			ev["after"] = snapshotEnv(watched)
